@@ -127,9 +127,9 @@ inductive Cond where
   | not (cs : List Cond)
   | elemOps (cs : List Cond)             -- {$elemMatch: {$gt: 1, …}}
   | elemFields (fcs : List FieldCond)    -- {$elemMatch: {b: 1, "c.d": {$lt: 2}}}
-/-- a field entry: path and the conjunction of its conditions -/
+/-- a field entry: dotted path (as written) and the conjunction of its conditions -/
 inductive FieldCond where
-  | mk (p : Path) (cs : List Cond)
+  | mk (key : String) (cs : List Cond)
 end
 
 mutual
@@ -166,8 +166,12 @@ def truthy (v : V) : Bool :=
   | .null => false
   | .i32 n => n != 0
   | .i64 n => n != 0
-  | .f64 _ => V.cmp v (.i32 0) != .eq
-  | .dec _ _ => V.cmp v (.i32 0) != .eq
+  | .f64 b => (match f64Val b with      -- ±0 is zero; NaN and the infinities are not
+    | .fin q => q != 0
+    | _ => true)
+  | .dec h l => (match decVal h l with
+    | .fin q => q != 0
+    | _ => true)
   | _ => true
 
 /-- a PRESENT leaf of one of the types -/
@@ -231,7 +235,7 @@ def holdsCs (root : V) (p : Path) : List Cond → Bool
   | [] => true
   | c :: cs => holdsC root p c && holdsCs root p cs
 def holdsFC (root : V) : FieldCond → Bool
-  | .mk p cs => holdsCs root p cs
+  | .mk key cs => holdsCs root (splitPath key) cs
 def holdsFCs (root : V) : List FieldCond → Bool
   | [] => true
   | fc :: r => holdsFC root fc && holdsFCs root r
@@ -366,7 +370,7 @@ def parseFieldConds : List (String × V) → Option (List FieldCond)
   | (k, v) :: r =>
     if isOpKey k then none else
     match parseFieldValue v, parseFieldConds r with
-    | some cs, some fcs => some (.mk (splitPath k) cs :: fcs)
+    | some cs, some fcs => some (.mk k cs :: fcs)
     | _, _ => none
 end
 
@@ -390,7 +394,7 @@ def parseEntry (k : String) (v : V) : Option Entry :=
       | .doc s => some (.schema s)
       | _ => none
     else none
-  else (parseFieldValue v).map fun cs => .field (.mk (splitPath k) cs)
+  else (parseFieldValue v).map fun cs => .field (.mk k cs)
 def parseEntries : List (String × V) → Option (List Entry)
   | [] => some []
   | (k, v) :: r =>
@@ -469,6 +473,15 @@ def segOK (s : String) : Bool := s != "" && parseIndex s == numeral s
 
 def pathOK (p : Path) : Bool := !p.isEmpty && p.all segOK
 
+/-- Two facts about `String.splitOn` that hold for every key but are not proved here; they are
+    CHECKED instead (lungo evaluates `$elemMatch` on the virtual document `{item: x}` with the path
+    `"item." ++ key`; the reference semantics evaluates `key` on `x`). -/
+def itemSplitOK (key : String) : Bool :=
+  splitPath "item" == ["item"] && splitPath ("item" ++ "." ++ key) == "item" :: splitPath key
+
+def FieldCond.key : FieldCond → String
+  | .mk k _ => k
+
 /-- no type of the list is null (10) or array (4) -/
 def scalarTypes (ts : List Nat) : Bool := !ts.contains 0x0A && !ts.contains 0x04
 
@@ -490,7 +503,8 @@ def isEmptyArr (v : V) : Bool :=
    D1 `$type` naming null (matches absent fields);  D2 `$exists` over a fan-out whose candidates are
    all empty arrays;  D3 `$size` below two fan-outs;  D4 `$elemMatch` in field form on array elements
    that are not documents;  D5 `$all` over a fan-out with array-valued candidates;  D6 `$exists`
-   with a Decimal128 argument.
+   with a Decimal128 argument;  D7 `$all` with an array member (next to other members) on a path
+   that does not fan out.
 -/
 mutual
 /-- restrictions (2) and (4) on one condition for path `p` below `root`; `fo`: the path fans out -/
@@ -505,17 +519,17 @@ def coreC (ex : Bool) (root : V) (p : Path) (fo : Bool) : Cond → Bool
   | .all vs => vs.all (fun v => !isRegex v && !(match v with
                   | .doc ((k, _) :: _) => k == "$elemMatch"
                   | _ => false)) && (!fo || vs.all scalarOperand)
-              && (!ex || !fo || (cand root p).all fun c => !c.1.isArr)
+              && (!ex || (if fo then (cand root p).all fun c => !c.1.isArr else vs.all fun v => !v.isArr))
   | .mod _ _ => (leafsAt root p).all fun l => match l with | .dec _ _ => false | _ => true
   | .bits _ ps => ps.all (· < 64)
   | .not cs => coreCs ex root p fo cs
-  | .elemOps cs => !fo && ((cand root p).flatMap fun c => elemsOf c.1).all fun x => coreCs ex x [] false cs
-  | .elemFields fcs => !fo && ((cand root p).flatMap fun c => elemsOf c.1).all fun x => (!ex || x.isDoc) && coreFCs ex x fcs
+  | .elemOps cs => !fo && itemSplitOK "" && ((cand root p).flatMap fun c => elemsOf c.1).all fun x => coreCs ex x [] false cs
+  | .elemFields fcs => !fo && fcs.all (fun fc => itemSplitOK fc.key) && ((cand root p).flatMap fun c => elemsOf c.1).all fun x => (!ex || x.isDoc) && coreFCs ex x fcs
 def coreCs (ex : Bool) (root : V) (p : Path) (fo : Bool) : List Cond → Bool
   | [] => true
   | c :: cs => coreC ex root p fo c && coreCs ex root p fo cs
 def coreFC (ex : Bool) (root : V) : FieldCond → Bool
-  | .mk p cs => pathOK p && coreCs ex root p (fans root p) cs
+  | .mk key cs => pathOK (splitPath key) && coreCs ex root (splitPath key) (fans root (splitPath key)) cs
 def coreFCs (ex : Bool) (root : V) : List FieldCond → Bool
   | [] => true
   | fc :: r => coreFC ex root fc && coreFCs ex root r
